@@ -535,6 +535,14 @@ def app(op, *args):
         return P(args[0])
     if op == "upd":
         return upd(*args)
+    if op in ("ceil", "floor", "trunc", "round") and len(args) == 1:
+        # rounding an integer-valued quantity changes nothing: ceil(a // b) is a // b
+        a0 = P(args[0])
+        at0 = a0.single_atom()
+        if a0.is_const() and a0.const_value() is not None and a0.const_value().denominator == 1:
+            return a0
+        if at0 is not None and isinstance(at0, App) and at0.op in ("floordiv", "ceil", "floor", "trunc", "round", "len"):
+            return a0
     lin = LINEAR.get(op)
     if not lin:
         return P(App(op, tuple(args)))
